@@ -35,6 +35,9 @@ def base_text(kinds_per_record, nsamples, header_variant):
     extra = []
     if header_variant == "phasing":
         extra.append("##phasing=none")
+    if header_variant == "phasing2":
+        # header keys may repeat: two tools announced their phasing
+        extra += ["##phasing=partial", "##phasing=whatshap"]
     allk = {k for rec in kinds_per_record for k in rec}
     if declared or True:
         # PS/HP/PQ header lines only if used (or always in the 'declared' variants)
@@ -82,7 +85,7 @@ def bases(tier):
     T = tier == "thorough"
     for n in (1, 2, 3):
         for seq in itertools.product(KINDS, repeat=n):
-            for hv in ("declared", "phasing") if n <= 2 or T else ("declared",):
+            for hv in ("declared", "phasing", "phasing2") if n <= 2 or T else ("declared",):
                 yield ([(k,) for k in seq], 1, hv)
     if T:
         # four records over a reduced alphabet (one representative per class of call)
